@@ -11,8 +11,13 @@ import threading
 class LineInjector:
     TOOL = 4
 
-    def __init__(self, *funcs, name='lineinject'):
+    def __init__(self, *funcs, name='lineinject', instructions=False):
+        """instructions=True: the points are not the line starts but the places inside the functions where CPython can
+        really switch threads: right after a call instruction returned and at backward jumps (eval-breaker checks).
+        This reaches windows inside one source line, e.g. between computing a value and storing it."""
         self.mon = sys.monitoring
+        self.instructions = instructions
+        self.allowed = {}
         self.codes = []
         for f in funcs:
             code = getattr(f, '__code__', None) or getattr(getattr(f, '__func__', None), '__code__', None)
@@ -25,14 +30,24 @@ class LineInjector:
         self.injected = 0
         self.blocked = 0
         self.mon.use_tool_id(self.TOOL, name)
-        self.mon.register_callback(self.TOOL, self.mon.events.LINE, self._on_line)
+        self.event = self.mon.events.INSTRUCTION if instructions else self.mon.events.LINE
+        if instructions:
+            import dis
+            for c in self.codes:
+                ins = list(dis.get_instructions(c))
+                ok = set()
+                for a, b in zip(ins, ins[1:]):
+                    if a.opname.startswith('CALL') or a.opname in ('JUMP_BACKWARD', 'FOR_ITER', 'SEND'):
+                        ok.add(b.offset)
+                self.allowed[c] = ok
+        self.mon.register_callback(self.TOOL, self.event, self._on_line)
         for c in self.codes:
-            self.mon.set_local_events(self.TOOL, c, self.mon.events.LINE)
+            self.mon.set_local_events(self.TOOL, c, self.event)
 
     def close(self):
         for c in self.codes:
             self.mon.set_local_events(self.TOOL, c, 0)
-        self.mon.register_callback(self.TOOL, self.mon.events.LINE, None)
+        self.mon.register_callback(self.TOOL, self.event, None)
         self.mon.free_tool_id(self.TOOL)
 
     def arm(self, k, fn):
@@ -51,6 +66,8 @@ class LineInjector:
     def _on_line(self, code, line):
         if self.owner != threading.get_ident() or self.thread is not None:
             return
+        if self.instructions and line not in self.allowed.get(code, ()):
+            return          # (for INSTRUCTION events the second argument is the instruction offset)
         self.count += 1
         if self.count == self.k:
             self.injected += 1
